@@ -505,6 +505,24 @@ CORPUS = [
 ]
 
 
+def kernel_cache_dir():
+    """occa's kernel cache is keyed by the OKL source and the build properties, not by the translator that turns
+    it into C++: a change of the OKL front end (e.g. @tile) would be hidden by binaries cached earlier.  The cache
+    directory of this check is therefore keyed by the sources that decide what a cached binary contains."""
+    h = hashlib.sha1()
+    roots = ["src/occa/internal/lang", "src/occa/internal/modes/serial", "src/occa/internal/modes/openmp",
+             "src/occa/internal/core", "src/occa/internal/io", "src/core", "src/experimental", "src/functional",
+             "src/loops", "include/occa/defines", "include/occa/experimental"]
+    for root in roots:
+        for d, _, fs in sorted(os.walk(os.path.join(REPO, root))):
+            for f in sorted(fs):
+                if f.endswith((".cpp", ".hpp", ".tpp", ".h")):
+                    p = os.path.join(d, f)
+                    h.update(os.path.relpath(p, REPO).encode())
+                    h.update(open(p, "rb").read())
+    return os.path.join(BUILD, "occa_cache_func", h.hexdigest()[:12])
+
+
 def main(argv):
     ck = Check("C23", argv)
     ck.rule = ("histories of occa::array<int> / occa::range / occa::forLoop / float-array operations on a Serial or OpenMP "
@@ -523,7 +541,7 @@ def main(argv):
     ck.prove("C23")
     hb = ck.harness("h_functional")
     db = ck.driver("drv_func")
-    env = {"OCCA_CACHE_DIR": os.path.join(BUILD, "occa_cache_func"), "OMP_NUM_THREADS": "4",
+    env = {"OCCA_CACHE_DIR": kernel_cache_dir(), "OMP_NUM_THREADS": "4",
            # the JIT kernels are ASan-instrumented too: an out-of-bounds access inside a kernel is a report, not luck
            "OCCA_CXXFLAGS": "-O1 -g -fsanitize=address -fno-omit-frame-pointer",
            # an occa::exception thrown while a kernel is being built leaks parser objects: not this property
